@@ -10,7 +10,7 @@ Tie   : (A) the REAL Waveform inside real simulated designs (poked inputs, regis
 Spec  : an independent Python reference simulation + an independent Python reader of WaveDrom rows (impl vs spec), the
         Coq reader Spec.C15.decode / hist applied to the REAL rows, and in (B) a simulator listener that reads the wires
         after each cycle.  The same sweep is the search oracle when a proof or the tie breaks."""
-import random, json
+import random, json, os
 import common, netlist, designs
 from common import quiet, zlit, zlist
 
@@ -456,6 +456,7 @@ def run(ctx):
     r = ctx.prove(['Properties/C15.v'])
     ctx.log('proof build: ok=%s' % r['ok'])
     nA, nB, steps = (120, 8, 6) if ctx.quick else (1500, 80, 10)
+    if os.environ.get('C15_ONLY') == 'B': nA = 0          # debugging aid: look at what the kernel-level part alone sees
     ok, tieA = sweep_A(ctx, nA, ctx.seed * 1000003, with_coq=True)
     ctx.log('sweep A done: ok=%s tie=%s' % (ok, tieA))
     tieB = True
